@@ -30,7 +30,75 @@ def run(ctx):
     import warnings
     warnings.filterwarnings("ignore")
     evqe_corr.run_cluster(ctx, "C11")
+    for _ in range(ctx.n(2, 20)):
+        if ctx.out_of_time():
+            break
+        solver_history_case(ctx, ctx.rng)
+
+
+def solver_history_case(ctx, rng):
+    """the per-generation history stored in a solver result: snapshots taken at every result callback (by a recording termination criterion) and when
+    the solve returns must still describe the stored history at the end of the run AND after the same solver object has been used for a second solve"""
+    from concurrent.futures import ThreadPoolExecutor
+
+    from qiskit.quantum_info import SparsePauliOp
+    from qiskit_algorithms.optimizers import COBYLA
+
+    import fakes
+    from queasars.circuit_evaluation.configured_primitives import ConfiguredEstimatorV2, ConfiguredSamplerV2
+    from queasars.minimum_eigensolvers.base.termination_criteria import EvolvingAnsatzMinimumEigensolverBaseTerminationCriterion
+    from queasars.minimum_eigensolvers.evqe.evqe import EVQEMinimumEigensolver, EVQEMinimumEigensolverConfiguration
+
+    class Recording(EvolvingAnsatzMinimumEigensolverBaseTerminationCriterion):
+        def __init__(self):
+            self.snaps = []
+
+        def reset_state(self):
+            self.snaps = []
+
+        def check_termination(self, population_evaluation, best_individual, best_expectation_value):
+            self.snaps.append((population_evaluation, evqe_corr.result_struct(population_evaluation)))
+            return False
+
+    nq = rng.choice([2, 2, 3])
+    seed = rng.randrange(2**31)
+    crit = Recording()
+    gens = rng.randint(2, 3)
+    inp = {"kind": "solver_history", "n_qubits": nq, "seed": seed, "generations": gens}
+    ctx.case(inp, nontrivial=True, tags=["solver-history"])
+    with ThreadPoolExecutor(max_workers=rng.choice([1, 3])) as ex:
+        conf = EVQEMinimumEigensolverConfiguration(
+            configured_estimator=ConfiguredEstimatorV2(estimator=fakes.ExactEstimator(), precision=None), configured_sampler=ConfiguredSamplerV2(sampler=fakes.ExactSampler(), shots=64),
+            pass_manager=None, optimizer=COBYLA(maxiter=2), optimizer_n_circuit_evaluations=None, max_generations=gens, max_circuit_evaluations=None,
+            termination_criterion=crit, random_seed=seed, population_size=rng.randint(3, 4), speciation_genetic_distance_threshold=2, selection_alpha_penalty=0.1,
+            selection_beta_penalty=0.05, parameter_search_probability=0.5, topological_search_probability=0.6, layer_removal_probability=0.2, parallel_executor=ex,
+            mutually_exclusive_primitives=False)
+        solver = EVQEMinimumEigensolver(conf)
+        op1 = SparsePauliOp(["Z" * nq, "X" + "I" * (nq - 1)], [1.0, 0.5])
+        op2 = SparsePauliOp(["I" * (nq - 1) + "Z", "Y" * nq], [-1.0, 0.25])
+        res1 = solver.compute_minimum_eigenvalue(op1)
+        snaps1 = list(crit.snaps)
+        hist1 = [evqe_corr.result_struct(e) for e in res1.population_evaluation_results]
+        if [s for _, s in snaps1] != hist1:
+            ctx.violate("the history stored in a solver result differs from the evaluation results as they were when reported", inp, {"reported": len(snaps1), "stored": len(hist1)},
+                        key="C11:history:differs-from-callbacks")
+        for obj, s in snaps1:
+            if evqe_corr.result_struct(obj) != s:
+                ctx.violate("an evaluation result reported earlier in the run was modified later in the run", inp, None, key="C11:history:payload-modified")
+                break
+        gen1 = res1.generations
+        solver.compute_minimum_eigenvalue(op2)  # the same solver object is used again
+        hist1_after = [evqe_corr.result_struct(e) for e in res1.population_evaluation_results]
+        if hist1_after != hist1 or res1.generations != gen1:
+            ctx.violate("the history stored in a solver result changed when the same solver object was used for another solve", inp,
+                        {"generations_before": len(hist1), "generations_after": len(hist1_after)}, key="C11:history:changed-by-later-solve")
 
 
 def replay(ctx, case):
+    inp = case.get("case", case).get("input", case.get("input")) or {}
+    if inp.get("kind") == "solver_history":
+        import random
+
+        ctx.rng = random.Random(case.get("seed", ctx.seed))
+        return run(ctx)
     evqe_corr.replay_case(ctx, "C11", case)
